@@ -3,6 +3,7 @@
 -/
 import Yld.Proofs.Keys
 import Yld.Model.Emit
+import Yld.Proofs.Names
 namespace Yld.C12
 
 /-- No API name handed to loaded code (table regenerated from `_set_default_eval_context`) has
@@ -108,5 +109,26 @@ theorem term_expr_callees (t : STerm) : ∀ c ∈ PExpr.callees (exprOfSTerm t),
     cases ht with
     | head => exact iha c hc
     | tail _ h => exact ihas t h c hc
+
+/-! ### Identifiers -/
+
+/-- The compiler puts into identifier position (function names, parameters, variables, loop
+    variables, flags, callees) only identifier-shaped strings, whatever the clause bodies are —
+    given identifier-shaped predicate names and variable names. -/
+theorem compiler_emits_only_identifiers (preds : List Pred)
+    (hname : ∀ p ∈ preds, isAsciiIdent p.name = true)
+    (hvars : ∀ p ∈ preds, ∀ c ∈ p.clauses, (∀ v ∈ (c.head.map STerm.vars).flatten, isAsciiIdent v = true) ∧
+      (∀ v ∈ c.body.vars, isAsciiIdent v = true)) :
+    ∀ n ∈ PStmt.identsL (compileProgram preds), isAsciiIdent n = true :=
+  compileProgram_idents preds hname hvars
+
+/-- **Source text reaches the generated code only inside string constants, integer constants and
+    identifier-shaped names.** For every text the model front end accepts (ASCII head names), every
+    string in identifier position of the generated program is `[A-Za-z_][A-Za-z0-9_]*` — lexer
+    (`VARIABLE` tokens), parser and visitor (`V_` prefix, `x<n>`), head-name check, clause compiler
+    and code generator together. -/
+theorem source_text_only_in_constants_and_identifiers (s : String) (cs : List SClause) (h : frontend s = .ok (cs, false)) :
+    ∀ n ∈ PStmt.identsL (compileProgram (groupClauses cs)), isAsciiIdent n = true :=
+  emitted_identifiers_are_identifiers s cs h
 
 end Yld.C12
